@@ -33,6 +33,11 @@ type params struct {
 	gens        [][]int // chunk sizes accepted per generation
 	consumerAlt int     // consumer behaviours offered per chunk: 1 confirm only, 2 +keep, 3 +stall, 4 +finish early, 5 +hang forever
 	boundCheck  bool
+	// a queue directory left by an earlier life of the agent: prefill chunk files (1 byte each, names in creation order) and
+	// stale temporary files "<name>.tmp" of interrupted saves in front of the chunks at the given positions (0-based)
+	prefill  int
+	staleTmp []int
+	maxSteps int
 }
 
 type entry struct {
@@ -44,6 +49,7 @@ type entry struct {
 }
 
 type world struct {
+	placedTmp map[string]bool
 	p        params
 	root     string
 	qdir     string
@@ -59,6 +65,10 @@ type world struct {
 func (w *world) violate(key, format string, args ...any) {
 	// when serving C05 only the consumer-order oracle counts (acceptance order, recovered chunks first); the rest is C03
 	if propFlag == "C05" && key != "order" {
+		return
+	}
+	// when serving C19 only the counter oracles count
+	if propFlag == "C19" && !strings.HasPrefix(key, "metrics:") {
 		return
 	}
 	msg := fmt.Sprintf(format, args...)
@@ -94,7 +104,7 @@ func (w *world) files() map[string][]byte {
 		return out
 	}
 	for _, e := range ents {
-		if e.Name() == ".id" || e.IsDir() {
+		if e.Name() == ".id" || e.IsDir() || w.placedTmp[e.Name()] {
 			continue
 		}
 		data, _ := os.ReadFile(filepath.Join(w.qdir, e.Name()))
@@ -157,6 +167,7 @@ loop:
 				}
 			}
 			c.args.OnChunkConsumed(chunk)
+			c.events = append(c.events, "confirm")
 		case 1:
 			vsched.Note("consumer keeps %s", chunk.ID)
 			c.held = append(c.held, chunk)
@@ -182,6 +193,7 @@ loop:
 			e.handed++
 		}
 		c.args.OnChunkLeftover(chunk)
+		c.events = append(c.events, "handback")
 	}
 	c.done = true
 	c.args.OnFinished()
@@ -202,7 +214,11 @@ func makeRun(p params) explore.RunFunc {
 		w := &world{p: p, ledger: map[string]*entry{}}
 		w.root = hutil.ScratchRoot("bufmc")
 		defer os.RemoveAll(w.root)
-		res := vsched.Run(vsched.Options{Choose: choose, Trace: trace, MaxSteps: 50000, StateKeys: true, EnvState: w.stateHash}, func() {
+		maxSteps := 50000
+		if p.maxSteps > 0 {
+			maxSteps = p.maxSteps
+		}
+		res := vsched.Run(vsched.Options{Choose: choose, Trace: trace, MaxSteps: maxSteps, StateKeys: p.prefill < 50, EnvState: w.stateHash}, func() {
 			verdict = drive(w)
 		})
 		switch res.Status {
@@ -269,6 +285,27 @@ func drive(w *world) explore.Verdict {
 		mf := promreg.NewMetricFactory(fmt.Sprintf("g%d_", g), nil, nil)
 		buf := cfg.NewBufferer(logger.Root(), "q1", matchChunkID, mf, false)
 		w.qdir = buf.(interface{ QueueDirPath() string }).QueueDirPath()
+		if g == 0 && p.prefill > 0 {
+			w.placedTmp = map[string]bool{}
+			tmpAt := map[int]bool{}
+			for _, k := range p.staleTmp {
+				tmpAt[k] = true
+			}
+			for i := 0; i < p.prefill+len(p.staleTmp); i++ {
+				w.nextID++
+				id := fmt.Sprintf("%04d.ch", w.nextID)
+				if tmpAt[i] {
+					// an interrupted save of a chunk that was still in memory while newer ones had already been spilled
+					w.placedTmp[id+".tmp"] = true
+					os.WriteFile(filepath.Join(w.qdir, id+".tmp"), []byte("p"), 0o644)
+					continue
+				}
+				data := makeData(id, 1)
+				w.ledger[id] = &entry{data: data, gen: -1}
+				w.ids = append(w.ids, id)
+				os.WriteFile(filepath.Join(w.qdir, id), data, 0o644)
+			}
+		}
 		// what this generation should recover
 		onDiskBefore := w.files()
 		buf.Start()
@@ -386,6 +423,47 @@ func drive(w *world) explore.Verdict {
 			w.violate(key, "generation %d: %d chunks are neither confirmed nor on disk but dropped_chunks_total=%d (consumed=%d leftover=%d input=%d pending=%d)",
 				g, newlyMissing, dropped, consumedM, leftoverM, inputM, pendingM)
 		}
+		if propFlag == "C19" && !cons.hung {
+			// the buffer's counters against what the harness itself observed in this generation
+			confirmedByConsumer, handedBack := 0, 0
+			for _, ev := range cons.events {
+				switch ev {
+				case "confirm":
+					confirmedByConsumer++
+				case "handback":
+					handedBack++
+				}
+			}
+			// at start the queue takes the chunk files found, up to its capacity; the rest stays on disk untouched
+			recovered := len(onDiskBefore)
+			if recovered > p.queueCap {
+				recovered = p.queueCap
+			}
+			untouched := len(onDiskBefore) - recovered
+			if accepted := len(sizes) + recovered; inputM != accepted {
+				w.violate("metrics:buffer-input-vs-accepted", "generation %d: input_chunks_total=%d, but %d chunks were accepted (%d Accept calls + %d of %d files recovered at start, queue capacity %d)", g, inputM, accepted, len(sizes), recovered, len(onDiskBefore), p.queueCap)
+			}
+			if consumedM != confirmedByConsumer {
+				w.violate("metrics:buffer-consumed-vs-confirmed", "generation %d: consumed_chunks_total=%d, the consumer confirmed %d chunks", g, consumedM, confirmedByConsumer)
+			}
+			if pendingM < 0 {
+				w.violate("metrics:buffer-pending-negative", "generation %d: pending_chunks=%d", g, pendingM)
+			}
+			if inputM != consumedM+leftoverM+dropped+pendingM {
+				w.violate("metrics:buffer-balance", "generation %d: input=%d != consumed=%d + leftover=%d + dropped=%d + pending=%d", g, inputM, consumedM, leftoverM, dropped, pendingM)
+			}
+			if leftoverM > handedBack {
+				w.violate("metrics:buffer-leftover-vs-handed-back", "generation %d: leftover_chunks_total=%d, the consumer handed back %d chunks", g, leftoverM, handedBack)
+			}
+			if p.dirOK {
+				// after shutdown: files = left for the next start (leftover + still pending) + untouched + at most the dropped
+				// ones (a chunk dropped from a full queue after it was saved keeps its file)
+				left := leftoverM + pendingM + untouched
+				if onDiskNow := len(files); onDiskNow < left || onDiskNow > left+dropped {
+					w.violate("metrics:buffer-left-on-disk", "generation %d: leftover=%d + pending=%d + %d never taken in = %d, dropped=%d, but %d chunk files are in the queue directory after shutdown (input=%d consumed=%d)", g, leftoverM, pendingM, untouched, left, dropped, onDiskNow, inputM, consumedM)
+				}
+			}
+		}
 		// order: acceptance order, recovered first in creation order == ascending IDs
 		for i := 1; i < len(cons.seen); i++ {
 			if cons.seen[i-1] >= cons.seen[i] {
@@ -432,7 +510,7 @@ func scenarios() []*explore.Scenario {
 			b["thorough"] = thorough
 		}
 		mo := 2
-		if !p.dirOK && p.memCap == 0 {
+		if (!p.dirOK && p.memCap == 0) || p.prefill >= 50 {
 			mo = 1
 		}
 		out = append(out, &explore.Scenario{Name: p.name, Bound: b, Run: makeRun(p), MinOutcomes: mo})
@@ -469,6 +547,26 @@ func scenarios() []*explore.Scenario {
 		u.gens = [][]int{{4, 1, 9}}
 		u.name = fmt.Sprintf("nodir/mem%d", mem)
 		add(u, 2, 3)
+	}
+	// a queue directory found at startup: chunk files of an earlier life, with the stale temporary file of an interrupted save
+	// in front of / between / behind them (the process was killed while saving an older in-memory chunk after newer ones
+	// had been spilled); one more chunk arrives after the recovery
+	for k := 0; k <= 5; k++ {
+		r := params{memCap: 2, queueCap: 50, maxBuf: 1000, dirOK: true, consumerAlt: 2, prefill: 5, staleTmp: []int{k}}
+		r.gens = [][]int{{1}, {}}
+		r.name = fmt.Sprintf("recover/n5/tmp@%d", k)
+		add(r, 1, 2)
+	}
+	r2 := params{memCap: 2, queueCap: 50, maxBuf: 1000, dirOK: true, consumerAlt: 2, prefill: 5, staleTmp: []int{1, 3}}
+	r2.gens = [][]int{{1}, {}}
+	r2.name = "recover/n5/tmp@1+3"
+	add(r2, 1, 2)
+	// large backlogs (scale boundaries of the directory scan: more entries than any plausible read batch), default schedule
+	for _, n := range []int{300, 1100, 2100, 4200} {
+		b := params{memCap: 2, queueCap: n + 10, maxBuf: 1 << 20, dirOK: true, consumerAlt: 1, prefill: n, maxSteps: 400 * n}
+		b.gens = [][]int{{1, 1, 1}}
+		b.name = fmt.Sprintf("recover/backlog%d", n)
+		add(b, 0, 0)
 	}
 	return out
 }
